@@ -59,7 +59,7 @@ def expected_trace(c, v, t=None):
 
 
 def explore(ctx):
-    cases = []
+    cases = LC.CaseBuffer(ctx)
 
     def hooked(spec):
         return any(c.get('savorize') is not None or c.get('recognize') is not None for c in spec)
